@@ -245,7 +245,7 @@ def replay_overlap(vals):
 def run(tier):
     ck = common.Check("C07", tier)
     last = max(dateprobe.yaml_seed_dates())
-    lo = datetime.date(2015, 1, 1) if tier == "quick" else datetime.date(1980, 1, 1)
+    lo = datetime.date(2000, 1, 1) if tier == "quick" else datetime.date(1980, 1, 1)
     hi = last.replace(year=last.year + 1)
     dateprobe.ORACLE = oracle
     known_items = {k["key"][1] for k in ck.known if k["key"][0] == "resolution"}
@@ -295,7 +295,7 @@ def run(tier):
     ck.extra["regions"] = len(regions)
     ck.extra["distinct_environments"] = len({r.fp for r in regions})
     ck.extra["date_exploration"] = {k: v for k, v in st.items() if k != "leaks"}
-    ck.bounds = {"window": f"{lo} .. {hi} (every calendar day; quick starts at 2015-01-01)", "regions": len(regions)}
+    ck.bounds = {"window": f"{lo} .. {hi} (every calendar day; quick starts at 2000-01-01)", "regions": len(regions)}
     ck.assumptions = ["the date influences the loader only through comparisons, .year/.month/.day and .replace of the date object (all recorded); "
                       "reads made while building the exempt date stamp 'datum' are not recorded",
                       "reference resolver follows the property statement and the YAML dialect in the files (gsv/reference/resolver.py)"]
